@@ -14,7 +14,7 @@ The caller maps tags to its own rule ids and decides which tags it reports.
 """
 from . import g4
 from .build import Broken
-from .facts import strip, strip_all_casts, const_value, walk, callee_name, expand
+from .facts import strip, strip_all_casts, const_value, walk, callee_name, expand, canon
 from .g4 import BV, C0, C1, P, S, Unsupported, term_str
 
 
@@ -563,7 +563,10 @@ def analyse(fb, spec, scope=None):
                 if bases == ["D"] and form["D"] == 1:
                     out.append(Ob("size", cls, "%s:data-pointer" % cls, v.get("loc") or g.loc, form.get(1, 0) == off,
                                   "getData() returns payload byte %d; the variable-length data starts at byte %d" % (form.get(1, 0), off)))
-    # ---- swapEndian
+    # ---- swapEndian (an obligation of the layout properties themselves; importers of single accessors see its effect through those accessors)
+    if scope is not None:
+        stats["unsupported"] = deferred
+        return out, stats
     sw = [f for f in fb.by_name.get("ASAM::CMP::swapEndian", [])]
     if len(sw) < 5:
         raise Broken("expected 5 swapEndian overloads, found %d" % len(sw))
@@ -585,6 +588,14 @@ def analyse(fb, spec, scope=None):
                         continue
                 except Unsupported:
                     pass
+                # a swap whose result depends on the *value* of the float (a comparison, arithmetic on it) is not a permutation of its bytes:
+                # some bit patterns (-0.0, NaNs, denormals) take the other branch and reach the wire unswapped or altered
+                fl = [x for x in f.nodes() if x.get("k") == "bin" and ((strip_all_casts(x["l"]).get("t") or {}).get("k") == "float" or
+                                                                       (strip_all_casts(x["r"]).get("t") or {}).get("k") == "float")]
+                if fl:
+                    out.append(Ob("swap", "swapEndian", "swapEndian(float)", fl[0].get("loc") or f.loc, False,
+                                  "swapEndian(float) decides by the value of the float (`%s`): not a byte reversal of every bit pattern" % canon(fl[0])[:60]))
+                    continue
                 perm = interp.float_swap(f)
                 ok = all(perm[i] == 3 - i for i in range(4))
                 out.append(Ob("swap", "swapEndian", "swapEndian(float)", f.loc, ok, "byte permutation %r is byte reversal" % perm if ok else
